@@ -152,6 +152,11 @@ def generate(tier, seed, ctx):
                     c['via'] = via
                     c['i'] = 0
                 p.call(c)
+        # addr_extern: the value must fit the stated length, also when the length is not a whole number of bytes
+        p = fresh()
+        for ln, v in ((9, 0x3FF), (9, 0x200), (9, 0x1FF), (1, 2), (1, 1), (7, 128), (7, 127), (12, 0xFFFF), (255, 1 << 255), (255, (1 << 255) - 1), (8, 256)):
+            b = builder_at(p, rng, rng.choice([0, 9]), 0, [])
+            p.call({'op': 'store_address', 'obj': b, 'addr': {'kind': 'ext', 'len': ln, 'v': big(v)}})
         # (c) loads at remaining lengths, three slice provenances
         reads = [({'what': 'uint', 'w': w}, w, 0) for w in (1, 8, 64, 256)] + [({'what': 'int', 'w': w}, w, 0) for w in (1, 8, 257)] + \
                 [({'what': 'bits', 'n': n}, n, 0) for n in (1, 9, 1023)] + [({'what': 'bytes', 'n': n}, 8 * n, 0) for n in (1, 32)] + \
